@@ -799,6 +799,35 @@ def r9(k: Kit) -> None:
                   g.describe_path(w) if w else None)
 
 
+def r10(k: Kit) -> None:
+    """Attributes are never applied through a link by fallback."""
+    rep = k.rep
+    rep.rule('C13.R10', 'sftp._setstat: every os.chown / os.chmod / os.utime '
+             '/ os.stat it makes passes follow_symlinks=follow_symlinks - '
+             'there is no second, plain call as a fallback: '
+             'chmod(follow_symlinks=False) raises NotImplementedError '
+             'exactly for a real symlink, which is when following is '
+             'wrong (get(recurse=True, preserve=True) would chmod a path '
+             'the server chose)')
+    fi = k.func('sftp._setstat')
+    n = 0
+    for c in ast.walk(fi.node):
+        if isinstance(c, ast.Call) and dotted(c.func) in (
+                'os.chown', 'os.chmod', 'os.utime', 'os.stat', 'os.lchown'):
+            n += 1
+            ok = any(kw.arg == 'follow_symlinks' and
+                     dotted(kw.value) == 'follow_symlinks'
+                     for kw in c.keywords) or dotted(c.func) == 'os.lchown'
+            rep.check(ok, 'C13.R10',
+                      key(fi, f'{dotted(c.func)} honours follow_symlinks'),
+                      'follow_symlinks=follow_symlinks',
+                      f'`{norm(c)[:70]}` follows links whatever the caller '
+                      'asked: a downloaded link notes -> <outside>/victim '
+                      '(mode 0600) leaves victim with the link\'s mode 0777',
+                      fi.loc(c))
+    rep.floor('C13.R10', 'attribute calls in _setstat', n, 3)
+
+
 def run(idx, rep, tier):
     k = Kit(idx, rep)
     rep.assumptions += NOT_DECIDED
@@ -811,3 +840,4 @@ def run(idx, rep, tier):
     r7(k)
     r8(k)
     r9(k)
+    r10(k)
